@@ -244,6 +244,10 @@ def step_newgame(tier, seed, ctx):
     game = "position startpos moves e2e4 e7e5 g1f3"
     fixed = [([shuffle], ["go depth 4"]), ([shuffle], ["position startpos", "go depth 4"]), ([shuffle, "go depth 3"], ["go depth 4"]),
              ([game, "go depth 3"], [game, "go depth 3"]), ([game], [game, "go depth 3"]),
+             # the history that matters is given AFTER the new game (anything rebuilt lazily at the next go must not mix
+             # state from before and after it)
+             ([], [shuffle, "go depth 4"]), ([game, "go depth 2"], [shuffle, "go depth 4"]), (["isready"], [shuffle, "go depth 3", "go depth 4"]),
+             ([], ["position fen 4k3/8/8/8/q7/8/8/6K1 b - - 0 1 moves a4a5 g1h1 a5a6 h1g1 a6a5 g1h1 a5a6 h1g1", "go depth 4"]),
              (["position fen 4k3/8/8/8/q7/8/8/6K1 b - - 0 1 moves a4a5 g1h1 a5a6 h1g1 a6a5 g1h1 a5a6 h1g1", "go depth 3"], ["position fen 4k3/8/8/8/q7/8/8/6K1 b - - 0 1 moves a4a5 g1h1", "go depth 4"])]
     for p, s_ in fixed:
         a, rca = run_engine(exe, p + ["ucinewgame"] + s_)
@@ -521,8 +525,14 @@ def step_clock_go(tier, seed, ctx):
         cases += [("6k1/5ppp/8/8/8/p7/5PPP/6K1 w - - 0 1", "go wtime 2500 winc 9000 btime 2500 binc 9000", 2500)]
     if tier != "quick":
         cases += [(wfen, "go wtime 10000 btime 10000 winc 0 binc 0", 10000), (bfen, "go wtime 1 btime 1 winc 1 binc 1", 1), (wfen, "go movestogo 40 wtime 2500 btime 2500", 2500)]
+    # sessions: an earlier go in the same process that finishes long before its budget (depth 1 under a huge clock) must not
+    # change what the next clock command may spend (entries: (fen, [earlier commands...], judged command, own clock))
+    pre1 = ["go depth 1 wtime 305000 btime 305000", "go depth 2 movetime 60000"]
+    cases = [(f, [], c, o) for (f, c, o) in cases] + [(wfen, pre1, "go wtime 1000 btime 1000", 1000)]
+    if tier != "quick":
+        cases += [(bfen, ["go depth 1 wtime 900000 btime 900000 winc 0 binc 0"], "go wtime 60000 btime 700 winc 0 binc 0", 700)]
     worst = None
-    for fen, cmd, own in cases:
+    for fen, pre, cmd, own in cases:
         late = []
         for attempt in range(3):
             p = subprocess.Popen([exe], stdin=subprocess.PIPE, stdout=subprocess.PIPE, stderr=subprocess.DEVNULL, text=True, bufsize=1)
@@ -534,6 +544,13 @@ def step_clock_go(tier, seed, ctx):
                     ln = p.stdout.readline()
                     if not ln or ln.strip() == "readyok":
                         break
+                for pc in pre:
+                    p.stdin.write(pc + "\n")
+                    p.stdin.flush()
+                    while True:
+                        ln = p.stdout.readline()
+                        if not ln or ln.startswith("bestmove"):
+                            break
                 wd = threading.Timer((own + tol_ms) / 1000.0 + 3.0, p.kill)
                 wd.start()
                 t0 = time.time()
@@ -564,12 +581,12 @@ def step_clock_go(tier, seed, ctx):
                 margin = own + tol_ms - dt
                 worst = margin if worst is None else min(worst, margin)
                 if len(res["samples"]) < 3:
-                    res["samples"].append({"fen": fen, "command": cmd, "own_clock_ms": own, "answered_after_ms": round(dt, 1), "answer": got})
+                    res["samples"].append({"fen": fen, "earlier_commands": pre, "command": cmd, "own_clock_ms": own, "answered_after_ms": round(dt, 1), "answer": got})
                 late = []
                 break
             late.append(None if got is None else round(dt, 1))
         if late:
-            res["violations"].append({"kind": "answer-after-own-clock-ran-out", "fen": fen, "command": cmd, "own_clock_ms": own, "tolerance_ms": tol_ms,
+            res["violations"].append({"kind": "answer-after-own-clock-ran-out", "fen": fen, "earlier_commands": pre, "command": cmd, "own_clock_ms": own, "tolerance_ms": tol_ms,
                                       "answered_after_ms (None = no answer, killed)": late})
     res["distinct_nontrivial"] = len(cases)
     res["distribution"] = {"blackbox_clock_go": {"commands": len(cases), "tolerance_ms": tol_ms, "smallest_margin_ms": None if worst is None else round(worst, 1)}}
@@ -612,10 +629,18 @@ def step_latency(tier, seed, ctx):
     # that is moved while the search runs ("panic time") shows here and nowhere else; one session starts with a clock-mode go
     # (an entry ("raw", command, its budget) is sent as it is and only has to be answered) so that state set by the clock
     # parser is in place for the movetime search that follows
-    volatile_sessions = [[900], [("raw", "go wtime 17500 btime 17500", 500), 1200]] if tier == "quick" else \
-        [[900], [2000], [("raw", "go wtime 17500 btime 17500", 500), 1200], [("raw", "go wtime 30000 btime 30000 winc 0 binc 0", 1000), 2000, 700]]
+    def vol_after_clock(fen, clock_cmd, clock_budget, budgets):
+        # the clock-mode search runs on ANOTHER position, so that the table holds nothing about the volatile one and its
+        # iterations really see the score collapse
+        return [("send", "position startpos moves e2e4 e7e5"), ("raw", clock_cmd, clock_budget), ("send", "position fen " + fen)] + budgets
+    volatile_sessions = [[900]] if tier == "quick" else [[900], [2000]]
+    plan_vol = [(fen, sess) for fen in VOLATILE for sess in volatile_sessions]
+    plan_vol += [(VOLATILE[0], vol_after_clock(VOLATILE[0], "go wtime 17500 btime 17500", 500, [1200]))]
+    if tier != "quick":
+        plan_vol += [(VOLATILE[1], vol_after_clock(VOLATILE[1], "go wtime 30000 btime 30000 winc 0 binc 0", 1000, [2000, 700])),
+                     (VOLATILE[1], vol_after_clock(VOLATILE[1], "go btime 9000 wtime 17500 binc 100 winc 100", 600, [1500]))]
     plan = [(fen, sess) for fen in EXPLOSIVE for sess in sessions] + [(fen, sess) for fen in (EXPLOSIVE[3], EXPLOSIVE[4]) for sess in long_short] + [(quiet, sess) for sess in quiet_sessions] + \
-        [(fen, sess) for fen in VOLATILE for sess in volatile_sessions]
+        plan_vol
     def run_session(fen, sess):
         """one process, the budgets of `sess` one after the other; returns (violation or None, [samples], worst overshoot)"""
         viol, samples, worst_here = None, [], 0.0
@@ -629,6 +654,10 @@ def step_latency(tier, seed, ctx):
                     break
             for idx, t in enumerate(sess):
                 raw = None
+                if isinstance(t, tuple) and t[0] == "send":   # a line that is not answered (position ...)
+                    p.stdin.write(t[1] + "\n")
+                    p.stdin.flush()
+                    continue
                 if isinstance(t, tuple):
                     raw, t = t[1], t[2]
                 t0 = time.time()
@@ -636,7 +665,9 @@ def step_latency(tier, seed, ctx):
                 wd = threading.Timer((t + bound_ms) / 1000.0 + 20.0, p.kill)
                 wd.start()
                 # the budget is a budget however the command spells it: with a (non-binding) depth cap after or before it
-                forms = ["go movetime %d", "go movetime %d depth 60", "go depth 60 movetime %d", "go movetime %d"]
+                # ... or with other standard go parameters this engine does not implement (they must not disable the budget)
+                forms = ["go movetime %d", "go movetime %d depth 60", "go depth 60 movetime %d", "go movetime %d",
+                         "go movetime %d nodes 4000000000", "go nodes 4000000000 movetime %d", "go movetime %d mate 9"]
                 form = forms[(idx + len(sess) + t + len(fen)) % len(forms)]
                 if raw is not None:
                     form = raw.replace("%", "%%")
@@ -692,7 +723,7 @@ def step_latency(tier, seed, ctx):
             v["attempts"] = [a[0]["answered_after_ms"] for a in attempts]
             res["violations"].append(v)
             worst = max(worst, max(a[1] for a in attempts))
-    budgets = sessions + long_short + quiet_sessions + volatile_sessions
+    budgets = sessions + long_short + quiet_sessions + [[x for x in sess if not isinstance(x, tuple)] for _f, sess in plan_vol]
     res["distinct_nontrivial"] = res["evaluations"]
     res["distribution"] = {"blackbox_latency": {"max_overshoot_ms": round(worst, 1), "bound_ms": bound_ms, "positions": len(EXPLOSIVE), "budgets_ms": budgets, "sessions_repeated_after_a_late_answer": retried}}
     return res
